@@ -195,7 +195,7 @@ ADDENDA = {
     "C02": "Also a stream with messages of 1025 and 3000 tiny frames and nothing behind them, a stream of small frames in the 8-octet size form, and a real-transport leg: 8 raw peers writing 1500 (quick) / 6000 (thorough) tagged messages each in 2-3 pieces to PULL/ROUTER/SUB/DEALER on a 4-worker runtime.",
     "C04": "A valid peer after 260 rejected or abandoned handshakes on one socket. The first-item dimension also has 'other command / PING / message followed by a perfectly valid READY' (226 800 grid points). Also every wrong value (255 each) of either signature byte with everything else valid (whole and byte-at-a-time, 9 local types), and a real-transport leg: 9 types x {tcp4, ipc} x 4 stall offsets, a valid peer and a PAIR peer connecting while another connection sits silent mid-handshake, with the monitor requested before bind / after bind / again; generated identities checked against peers announcing their big-endian successors.",
     "C05": "Also: cooperative-yield / new-waker / re-insert actions at the probe level; socket histories with peers reconnecting under their identity and yielding pipes; a busy recv loop in block_on (child process); real library socket pairs over TCP on a 4-worker runtime (PUSH-PULL, PUB-SUB, DEALER-ROUTER, REQ-REP x 1/4/8 senders x 300 (quick) / 3000 (thorough) tagged messages); a fifth of the socket histories with abandoned recv calls; 33..130 idle connected peers of which one then speaks; frames of 70000/140000 bytes in a tenth of the history messages; targeted: noticed end + reconnect + 4 messages, unknown command followed by a short message.",
-    "C06": "Also: cooperative-yield / new-waker / re-insert actions, the busy recv loop child (CPU time tells a spin from a block), the real socket pairs of C05 (receiver starvation), and 33..130 idle connected peers of which one then speaks (the parked receiver must be woken).",
+    "C06": "Also: cooperative-yield / new-waker / re-insert actions, the busy recv loop child (CPU time tells a spin from a block), the real socket pairs of C05 (receiver starvation), and 33..130 idle connected peers of which one then speaks (the parked receiver must be woken); scripted cases in which one key is inserted again 3..17 times while busy (it must not collect one more turn per re-insertion; F25).",
     "C07": "Also two requests through one REP (answered / abandoned / requester gone), REQ after a server died with a request outstanding, and a real ROUTER hop: 1..3 raw REQ clients with no / empty / 1-byte / 255-byte Identity property -> library ROUTER -> frames forwarded verbatim -> library REP and back, over the shape grid, followed by a client restarting under its identity with the old connection still open. One scripted-peer message in eight uses the 8-octet size form for every frame.",
     "C08": "Also base-3 sequences with abandoned recv (REQ) and envelope-violating requests (REP), a REP client reconnecting under its identity between request and reply, a REQ send that fails, reconnect in the turn the old end is noticed, concurrent clients with no / an empty Identity property, a command frame between a request and its reply on REQ, and a REP send abandoned under back-pressure.",
     "C09": "Also peers announcing an Identity property of length 0 (several per socket), peers reconnecting under their identity before/after the old end was observed, FIN-only departure, and a send abandoned while pending under back-pressure followed by further sends to the same identity; the same send not abandoned (complete on the connection when it returns); reconnect in the turn the end is noticed; a valid peer that is not admitted is a violation.",
@@ -207,7 +207,7 @@ ADDENDA = {
     "C15": "Also a client reconnecting under its identity, an idle worker leaving while requests are in flight, pipes that yield cooperatively, and clients that stop reading for a while.",
     "C16": "Also FIN-only faults, a connection replaced by a new one under the same identity (old one ended-unnoticed / parked / half-open), SUB subscription updates after the fault, and a child-process leg: a bound socket of each type serving 60 (quick) / 600 (thorough) connect-exchange-disconnect cycles over tcp and ipc with /proc/self/fd and alive-task counts compared before/after; a live peer with a message waiting when the end is noticed; reconnect after the old end was noticed (EOF / error / reset); a send blocked on a silent peer while another peer is being registered and the first one fails (executor must not deadlock).",
     "C17": "Also a peer stalled with data queued, two live connections announcing one identity, a connect() abandoned mid-handshake, re-binding the same TCP port after close/drop (peers still open / closed), SUB with a joiner parked in the subscription announcement, and close/drop of an IPC listener after an accept-error episode (child process).",
-    "C18": "Also unbind of another host spelling carrying a live listener's port, 1..12 blocking connects racing an unbind (none may be admitted afterwards), a silent client, unbind immediately followed by bind of the same ipc endpoint, and a child-process leg (4 types x tcp4/tcp6/ipc) in which accept() itself fails for ~120 ms (descriptor table full; failures counted through the monitor) and must recover.",
+    "C18": "Also unbind of another host spelling carrying a live listener's port, 1..12 blocking connects racing an unbind (none may be admitted afterwards), a silent client, unbind immediately followed by bind of the same ipc endpoint, and a child-process leg (4 types x tcp4/tcp6/ipc) in which accept() itself fails for ~120 ms (descriptor table full; failures counted through the monitor) and must recover. A probe of an unbound endpoint is attributed to the socket under test only by the Accepted event carrying the probe's one-off identity (ephemeral ports are recycled among parallel cases).",
     "C19": "Also random IPv4/IPv6 values rendered in every textual form (zero-padded, upper case, '::' anywhere, dotted-quad tails up to 45 characters), bracketed or not; every string also through the TryIntoEndpoint conversion used by bind()/connect(); white-space-padded variants.",
     "C20": "Also the behaviour 'fin' (orderly half-close, connection kept open), 40 stalled / 24 mixed simultaneous bad clients, the accept-error child of C18 with 12 silent clients connected (5 types x tcp4/ipc), and a monitor overflow (1300 failed handshakes while the monitor is not read, then further failures and a good client must still be reported).",
 }
